@@ -216,6 +216,14 @@ def run(res, tier):
     hc = [c for c in f.walk() if c.is_call() and (c.get('q') or '').endswith('DataNode::HasChild')]
     gens = [c for c in f.walk() if c.is_call() and re.search(r'(sprintf|snprintf|Sprintf)$', c.get('q') or '')]
     if not gens:
+        # the generator loop may have been extracted into a private helper of DataNode (msa/ip.py): judge it where it is
+        from msa import ip as IP
+        for g_ in IP.scope(fx, f, r'^muscle::DataNode::'):
+            gg = [c for c in g_.walk() if c.is_call() and re.search(r'(sprintf|snprintf|Sprintf)$', c.get('q') or '')]
+            if gg and g_ is not f:
+                f, gens = g_, gg
+                break
+    if not gens:
         raise AnalysisBroken('INDEX-OBSERVERS: the name generator of InsertOrderedChild was not found')
     # the buffer that holds the generated name must be tested with HasChild(buf) == false on the edge that leads to its use
     bufd = set(x['d'] for x in gens[0].args()[0].walk() if x['k'] == 'DeclRefExpr' and 'd' in x)
@@ -237,7 +245,7 @@ def run(res, tier):
             if gn.is_call() and (gn.get('q') or '').endswith('DataNode::HasChild') and any(x['k'] == 'DeclRefExpr' and x.get('d') in bufd for x in gn.walk()) and t_ != pol:
                 g_ok = True
         okn = okn and g_ok
-    res.ob('INDEX-OBSERVERS', f.where(gens[0]), 'InsertOrderedChild uses a generated child name only on the edge where HasChild(name) is false', okn, function=f.q, key='INDEX-OBSERVERS|%s|fresh-name' % f.q,
+    res.ob('INDEX-OBSERVERS', f.where(gens[0]), 'InsertOrderedChild uses a generated child name only on the edge where HasChild(name) is false', okn, function=f.q, key='INDEX-OBSERVERS|muscle::DataNode::InsertOrderedChild|fresh-name',
            message='DataNode::InsertOrderedChild uses a generated name without checking that no child has it: PutChild then replaces the existing child while its old index entry stays, so the index lists '
                    'the name twice and one slot refers to a node that is no longer a child')
     # ---- round-2 additions
